@@ -272,7 +272,7 @@ pub fn check(s: &'static dyn Proto, c: &Case, st: &mut Stats, _k: &KnownFindings
 }
 
 pub const BUDGET: Budget = Budget {
-    quick: (60, 24, 8),
+    quick: (400, 150, 50),
     thorough: (600, 200, 60),
     shrink: 120,
 };
